@@ -62,9 +62,3 @@ pub fn vx_vec_swap<T>(v: &mut Vec<T>, a: usize, b: usize)
     requires a < old(v)@.len(), b < old(v)@.len()
     ensures final(v)@ == old(v)@.update(a as int, old(v)@[b as int]).update(b as int, old(v)@[a as int])
 { v.swap(a, b) }
-
-/// R-method-map `v.into_iter()` / R-forvec `for x in v`: a Vec consumed by value yields its elements in order
-#[verifier::external_body]
-pub fn vx_vec_into_iter<T>(v: Vec<T>) -> (r: VxIter<T>)
-    ensures r@ == v@, r@.len() <= usize::MAX   // a Vec holds at most usize::MAX elements
-{ unimplemented!() }
